@@ -4,6 +4,8 @@ E1: for every exported context and each of its schemes B, a string of B's output
 with up to 6 of the varying positions replaced by symbolic characters of B's alphabet - goes through the real
 ctx.identify(); every feasible path must attribute it to B.  Registry consistency is finite and checked directly.
 """
+import os
+import sys
 import z3
 from vlib import sym, runner, hashenv
 from vlib.sym import SBool, explore, check, valid, Unsupported
@@ -231,6 +233,56 @@ def ob_registry():
               verdict="finite-exhaustive", nontrivial=False)
 
 
+IMPORT_ORDER_SCRIPT = r"""
+import sys, json, warnings, importlib
+warnings.simplefilter("ignore")
+from passlib.context import CryptContext
+out = {}
+for name in sys.argv[1].split(","):
+    importlib.import_module(name)
+for name in sorted(sys.argv[1].split(",")):
+    mod = sys.modules[name]
+    for k in sorted(vars(mod)):
+        v = getattr(mod, k)
+        if isinstance(v, CryptContext) and not k.startswith("_"):
+            out["%s.%s" % (name, k)] = (list(v.schemes()), v.default_scheme() if v.schemes() else None)
+print(json.dumps(out, sort_keys=True))
+"""
+
+
+def replay_import_order():
+    """the ready-made contexts are the same objects whatever order their modules are first imported in (each order runs in a
+    fresh interpreter: import-time state is process-wide)"""
+    import itertools
+    import json
+    import subprocess
+    mods = ["passlib.apps", "passlib.hosts", "passlib.apache"]
+    env = dict(os.environ, PYTHONPATH=runner.REPO, PYTHONHASHSEED="0")
+    ref = None
+    for order in itertools.permutations(mods):
+        p = subprocess.run([sys.executable, "-W", "ignore", "-c", IMPORT_ORDER_SCRIPT, ",".join(order)], env=env, capture_output=True,
+                           text=True, timeout=300, cwd=runner.REPO)
+        if p.returncode != 0:
+            return "importing %s raises: %s" % (", ".join(order), p.stderr[-300:])
+        got = json.loads(p.stdout.strip().splitlines()[-1])
+        if ref is None:
+            ref = (order, got)
+        elif got != ref[1]:
+            diff = sorted(k for k in set(got) | set(ref[1]) if got.get(k) != ref[1].get(k))
+            k = diff[0]
+            return "import order %s gives %s = %r, import order %s gives %r" % (", ".join(order), k, got.get(k), ", ".join(ref[0]), ref[1].get(k))
+    return False
+
+
+def ob_import_order():
+    r = replay_import_order()
+    if r:
+        return violation("ready-made contexts depend on import order: %s" % r, "contexts:import-order",
+                         {"module": "harness.c17", "func": "replay_import_order", "args": {}})
+    return ok("scheme lists and defaults of every exported context are the same for all 6 first-import orders of passlib.apps/hosts/apache "
+              "(one fresh interpreter per order)", paths=6, verdict="finite-enumeration", nontrivial=False)
+
+
 def replay_registry():
     r = ob_registry()
     return r["status"] == "violation" and r["detail"]
@@ -239,7 +291,7 @@ def replay_registry():
 def run(tier, seed, t0, only=None):
     import sys
     sys.path.insert(0, runner.REPO)
-    obs = [Ob("registry", ob_registry, timeout=600)]
+    obs = [Ob("registry", ob_registry, timeout=600), Ob("import-order", ob_import_order, timeout=900)]
     cs = contexts()
     if tier == "quick":
         keep = ("apache.htpasswd_context", "apps.custom_app_context", "apps.ldap_context", "apps.django_context", "hosts.linux_context",
